@@ -428,3 +428,9 @@ package db
 //@ requires ipnet != nil
 //@ ensures[family] result2 == nil && result0 != nil && uf.isv4ip(old(ipnet.IP)) ==> result1 >= 96
 //@ loop 1 invariant 0 <= i && i <= 16
+
+// ---- C05: a reader's lookup context never outlives the reader ------------------------------------------------
+// The RocksDB driver hands every reader a brand-new rdb.Context (its cache has no eviction and Reset is a
+// no-op, so a recycled context would answer from whatever generation first filled it).
+//@ func rdbdriver.NewContext
+//@ ensures[fresh] result != nil && dyntype(result) == ptrtag("rdb.Context") && fresh(asptr(result, "rdb.Context"))
